@@ -38,7 +38,10 @@ type Frame struct {
 	parent   *Frame
 	label    string
 	quantDepth int
-	pointwise  map[string][]Term // frame clause in effect for the contract being applied
+	pointwise  map[string][]Term
+	localObjs  []localObj        // escaping local allocations of this frame (objects in the symbolic heap)
+	passedRefs map[string]bool   // references handed to the call being processed
+	leaked     map[string]bool   // local references stored into the heap (may be reached by any callee) // frame clause in effect for the contract being applied
 }
 
 type loopInfo struct {
